@@ -633,6 +633,11 @@ func (m *interp) fail(err error) sig {
 }
 
 func (m *interp) renderText(parts []TextPart) (string, error) {
+	for _, p := range parts {
+		if p.E == nil && strings.Contains(p.S, "[broken") {
+			return "", evalErrf("the text is not valid markup (unterminated marker)")
+		}
+	}
 	var b strings.Builder
 	for _, p := range parts {
 		if p.E != nil {
